@@ -461,3 +461,278 @@ func fanOutReachesHandlers(r *Report, p *Program, rule string) {
 		r.Check(rule, FK(f), p.Pos(f.Pos()), ok, "always reaches the subscribers", why)
 	}
 }
+
+// createTable (C10/C01/C06): updateChildren, per desired child: not among the observed children ⇒ the body ends in
+// a Create/apply request or a recorded error. No other condition (the parent's deletion timestamp, a label, the
+// strategy) may stand between "desired and absent" and the creation: during finalization the children are still
+// reconciled to the finalize hook's answer, and convergence needs every desired child to come into being.
+func createTable(r *Report, p *Program, rule string) {
+	r.Rule(rule, "updateChildren, per desired child: absent from the observed children ⇒ Create (or server-side apply) is sent, or an error is recorded; nothing else decides it")
+	r.Floor(rule, 1)
+	f := fn(r, p, rule, "controller/common.updateChildren")
+	if f == nil {
+		return
+	}
+	var l *engine.RangeLoop
+	for _, x := range engine.RangeLoops(f) {
+		if E(x.X) == "p4" {
+			l = x
+		}
+	}
+	if l == nil {
+		r.Check(rule, FK(f), p.Pos(f.Pos()), false, "", "expected a loop over the desired children (parameter 4)")
+		return
+	}
+	paths, err := engine.EnumPaths(f, engine.EnumOpts{Start: l.Body, Leave: func(b *ssa.BasicBlock) bool { return b == l.Header || b == l.Exit },
+		Effect: func(in ssa.Instruction) bool {
+			return isSinkOrThinWrapper(p, in, "Create") || isSinkOrThinWrapper(p, in, "Patch") || isCallTo(in, "builtin.append")
+		}})
+	ok, why := err == nil, ""
+	if err != nil {
+		why = err.Error()
+	}
+	key := E(l.Key)
+	seen := 0
+	for _, pa := range paths {
+		if val(pa, -1, func(a string) bool { return a == "(p3["+key+"] == nil)" }) != 1 {
+			continue
+		}
+		seen++
+		if len(pa.Effects) == 0 {
+			ok, why = false, "a desired child that does not exist is neither created nor reported as failed; path: "+pa.Cond()
+		}
+	}
+	if ok && seen == 0 {
+		ok, why = false, "no path on which the desired child is found absent from the observed children (looked up under its own key "+key+")"
+	}
+	r.Check(rule, FK(f), p.Pos(f.Pos()), ok, "absent ⇒ Create ∨ error", why)
+}
+
+// hookAnswerFrozenAfterGate (C08/C07/C01): the rollout gate decides "is this child up to date" by comparing the
+// observed child with ApplyUpdate(observed, the hook's child as the revision code saw it). Whatever is applied and
+// recorded as last-applied afterwards must therefore be that same object: an edit of a desired child between the
+// rollout decision (syncRollingUpdate, inside syncRevisions) and ManageChildren makes the recorded configuration
+// differ from what the next sync's gate recomputes, and the rollout waits for ever for a child that is fine.
+func hookAnswerFrozenAfterGate(r *Report, p *Program, rule string) {
+	r.Rule(rule, "composite sync: after the rollout decision (syncRollingUpdate in syncRevisions; syncRevisions in syncParentObject) no desired child that came from the hook is edited before ManageChildren records it")
+	r.Floor(rule, 2)
+	isUnstr := func(t types.Type) bool {
+		pt, ok := t.(*types.Pointer)
+		if !ok {
+			return false
+		}
+		n, ok := pt.Elem().(*types.Named)
+		return ok && n.Obj().Name() == "Unstructured" && n.Obj().Pkg() != nil && strings.HasSuffix(n.Obj().Pkg().Path(), "apis/meta/v1/unstructured")
+	}
+	through := func(k string) bool {
+		return strings.HasPrefix(k, engine.ModPrefix) || strings.HasPrefix(k, engine.KUnstructured)
+	}
+	for _, c := range []struct {
+		fn, gate string
+		src      func(x ssa.Value) bool
+	}{
+		{"controller/composite.parentController.syncRevisions", "composite.parentController.syncRollingUpdate", func(x ssa.Value) bool {
+			fa, ok := x.(*ssa.FieldAddr)
+			return ok && (fieldName(fa) == "desiredChildMap" || fieldName(fa) == "syncResult")
+		}},
+		{"controller/composite.parentController.syncParentObject", "composite.parentController.syncRevisions", func(x ssa.Value) bool {
+			cl, ok := x.(*ssa.Call)
+			return ok && strings.HasSuffix(engine.CallKey(cl.Common()), "composite.parentController.syncRevisions")
+		}},
+	} {
+		f := fn(r, p, rule, c.fn)
+		if f == nil {
+			continue
+		}
+		gates := callsTo(f, false, c.gate)
+		if len(gates) == 0 {
+			r.Check(rule, FK(f), p.Pos(f.Pos()), false, "", "the call that makes the rollout decision ("+c.gate+") was not found")
+			continue
+		}
+		gate := gates[0].Instr
+		ok, why := true, ""
+		seenM := map[ssa.Instruction]bool{}
+		for _, b := range f.Blocks {
+			for _, in := range b.Instrs {
+				v, isV := in.(ssa.Value)
+				if !isV || !isUnstr(v.Type()) || !engine.BackSlice(v, c.src, through) {
+					continue
+				}
+				for _, m := range p.Mutations(f, v) {
+					if seenM[m.Instr] {
+						continue
+					}
+					mi := m.Instr
+					if (engine.Query{Fn: f, From: []engine.Point{engine.After(gate)}, Target: func(x ssa.Instruction) bool { return x == mi }}).Find() == nil {
+						continue
+					}
+					seenM[mi] = true
+					ok, why = false, sf("a desired child is edited (%s at %s) after the rollout decision was taken on the unedited hook answer: what ManageChildren records as last-applied is not what the next sync's rollout gate recomputes, so a healthy child looks \"not updated yet\" for ever", m.What, p.InstrPos(mi))
+				}
+			}
+		}
+		r.Check(rule, FK(f)+"[after:"+Short(c.gate)+"]", p.InstrPos(gate), ok, "desired children only read after the rollout decision", why)
+	}
+}
+
+// stopChannelHandedOut (C20): a hosted controller is stopped by closing ONE channel (the receiver field that Stop
+// closes before it waits for the workers). Everything Start hands a channel to — cache-sync waits, worker loops,
+// the customize manager, whose lazily created related informers wait on it — must get that channel: a wait that
+// is given the "done" channel (closed only after the workers returned) or no channel at all cannot be interrupted,
+// the worker never returns, Stop blocks for ever and the reconciler that called it with it.
+func stopChannelHandedOut(r *Report, p *Program, rule string) {
+	r.Rule(rule, "hosted controllers: the only receiver channel Start (and its goroutines) pass on is the one Stop closes; a controller that asks its customize manager for related objects hands it that channel in Start")
+	r.Floor(rule, 6)
+	for _, typ := range []string{"controller/composite.parentController", "controller/decorator.decoratorController"} {
+		start, stop := fn(r, p, rule, typ+".Start"), fn(r, p, rule, typ+".Stop")
+		if start == nil || stop == nil {
+			continue
+		}
+		recvField := func(f *ssa.Function, v ssa.Value) string {
+			// v is a load of a field of f's (or its enclosing function's) receiver
+			u, ok := v.(*ssa.UnOp)
+			if !ok {
+				return ""
+			}
+			fa, ok := u.X.(*ssa.FieldAddr)
+			if !ok {
+				return ""
+			}
+			if e := E(fa.X); e != "p0" && !strings.HasPrefix(e, "free") && !strings.Contains(e, "p0") {
+				return ""
+			}
+			return fieldName(fa)
+		}
+		stopField := ""
+		for _, b := range stop.Blocks {
+			for _, in := range b.Instrs {
+				if isCallTo(in, "builtin.close") {
+					if f := recvField(stop, in.(ssa.CallInstruction).Common().Args[0]); f != "" && stopField == "" {
+						stopField = f
+					}
+				}
+			}
+		}
+		r.Check(rule, FK(stop)+"[closes-a-channel]", p.Pos(stop.Pos()), stopField != "", "Stop closes "+stopField, "Stop closes no channel field of the controller")
+		if stopField == "" {
+			continue
+		}
+		ok, why := true, ""
+		handed := false
+		fns := append([]*ssa.Function{start}, engine.Closures(start)...)
+		for _, g := range fns {
+			for _, b := range g.Blocks {
+				for _, in := range b.Instrs {
+					ci, isC := in.(ssa.CallInstruction)
+					if !isC || isCallTo(in, "builtin.close") {
+						continue
+					}
+					for _, a := range ci.Common().Args {
+						if _, isCh := a.Type().Underlying().(*types.Chan); !isCh {
+							continue
+						}
+						f := recvField(g, a)
+						if f == "" {
+							continue
+						}
+						if f != stopField {
+							ok, why = false, sf("%s is given the controller's %s at %s, but Stop closes %s: the wait behind it is not released by Stop (and if %s is closed only when the workers are done, Stop deadlocks on it)", engine.Short(engine.CallKey(ci.Common())), f, p.InstrPos(in), stopField, f)
+						} else if strings.HasSuffix(engine.CallKey(ci.Common()), "customize.Manager.Start") {
+							handed = true
+						}
+					}
+				}
+			}
+		}
+		r.Check(rule, FK(start)+"[only-the-stop-channel]", p.Pos(start.Pos()), ok, "every channel passed on is "+stopField, why)
+		// does this controller use related objects at all?
+		uses := false
+		for _, f := range p.Scanned {
+			if strings.HasPrefix(Short(FK(f)), typ+".") && len(callsTo(f, true, "customize.Manager.GetRelatedObjects")) > 0 {
+				uses = true
+			}
+		}
+		if uses {
+			r.Check(rule, FK(start)+"[customize-gets-the-stop-channel]", p.Pos(start.Pos()), handed, "customize.Start("+stopField+")",
+				"the controller asks its customize manager for related objects but never hands it the stop channel: the manager waits for a related informer's first sync on a nil channel, so a related resource that cannot be listed blocks the worker for ever and Stop (which waits for the workers) never returns — the controller cannot be stopped, updated or deleted")
+		}
+	}
+}
+
+// responseTypesDecodePlainly (C19/C13): strict / loose decoding of a hook answer is decided by the decoder
+// webhookExecutor.Call picks (UnmarshalStrict vs Unmarshal). encoding/json-style decoders hand the whole document
+// to a type's own UnmarshalJSON when it has one — unknown and duplicate fields are then whatever that method makes
+// of them, whatever mode was configured. So no module type that a hook answer is decoded into may bring its own
+// UnmarshalJSON / UnmarshalText (the k8s types — Unstructured, metav1 — are arbitrary content by design).
+func responseTypesDecodePlainly(r *Report, p *Program, rule string) {
+	r.Rule(rule, "no module type reachable from a hook response type (the second argument of Hook.Call) declares UnmarshalJSON/UnmarshalText: the configured decoding mode is what decides how the answer is read")
+	r.Floor(rule, 3)
+	seen := map[string]bool{}
+	var walk func(t types.Type, d int) (string, bool)
+	walk = func(t types.Type, d int) (string, bool) {
+		if d > 8 {
+			return "", true
+		}
+		switch x := t.(type) {
+		case *types.Pointer:
+			return walk(x.Elem(), d+1)
+		case *types.Slice:
+			return walk(x.Elem(), d+1)
+		case *types.Array:
+			return walk(x.Elem(), d+1)
+		case *types.Map:
+			if s, ok := walk(x.Key(), d+1); !ok {
+				return s, false
+			}
+			return walk(x.Elem(), d+1)
+		case *types.Named:
+			if x.Obj().Pkg() == nil || !strings.HasPrefix(x.Obj().Pkg().Path()+"/", strings.TrimSuffix(engine.ModPrefix, "/")+"/") && !strings.HasPrefix(x.Obj().Pkg().Path(), strings.TrimSuffix(engine.ModPrefix, "/")) {
+				return "", true
+			}
+			k := x.Obj().Pkg().Path() + "." + x.Obj().Name()
+			if seen[k] {
+				return "", true
+			}
+			seen[k] = true
+			ms := types.NewMethodSet(types.NewPointer(x))
+			for i := 0; i < ms.Len(); i++ {
+				if n := ms.At(i).Obj().Name(); n == "UnmarshalJSON" || n == "UnmarshalText" {
+					// promoted from an embedded non-module type (metav1.TypeMeta has none; Unstructured is not embedded): report only own methods
+					if fn, isF := ms.At(i).Obj().(*types.Func); isF && fn.Pkg() != nil && strings.HasPrefix(fn.Pkg().Path(), strings.TrimSuffix(engine.ModPrefix, "/")) {
+						return k + "." + n, false
+					}
+				}
+			}
+			return walk(x.Underlying(), d+1)
+		case *types.Struct:
+			for i := 0; i < x.NumFields(); i++ {
+				if s, ok := walk(x.Field(i).Type(), d+1); !ok {
+					return s, false
+				}
+			}
+		}
+		return "", true
+	}
+	n := 0
+	done := map[string]bool{}
+	for _, f := range p.Scanned {
+		for _, cs := range callsTo(f, true, "hooks.Hook.Call") {
+			if len(cs.Common().Args) < 2 {
+				continue
+			}
+			resp := engine.Unwrap(cs.Arg(1))
+			t := resp.Type()
+			if done[t.String()] {
+				continue
+			}
+			done[t.String()] = true
+			n++
+			bad, ok := walk(t, 0)
+			r.Check(rule, sf("response-type %s", strings.TrimPrefix(strings.TrimPrefix(t.String(), "*"), engine.ModPrefix)), p.InstrPos(cs.Instr), ok, "decoded field by field by the configured decoder",
+				"the hook answer is decoded into a type with its own "+bad+": the strict decoder hands the document to that method, so unknown/duplicate fields are no longer rejected in strict mode (and loose mode reads whatever the method reads)")
+		}
+	}
+	if n == 0 {
+		r.Check(rule, "hook response types", "-", false, "", "no Hook.Call site with a typed response found")
+	}
+}
